@@ -289,7 +289,10 @@ PROPS["C12"] = dict(
     level_note="PARTIAL: 'no goroutine left' is proved per protocol model (WaitCond watcher, cleaner timers) and otherwise observed on the real runtime; "
                "a single whole-library thread model is not built.",
     stages=[corr_stage("C12LEAK", 240, 3000, seeds=2),
-            corr_stage("BUFK1", 300, 5000, feature=feat_buf("C12"), params={"salt": 12})],
+            corr_stage("BUFK1", 300, 5000, feature=feat_buf("C12"), params={"salt": 12}),
+            corr_stage("C13K1", 300, 4000, feature=lambda tok: (" ".join(tok[3:]) if (" ; 5 ; " in " ".join(tok) or " ; 6 ; " in " ".join(tok)) else None),
+                       params={"closebias": 1}),
+            corr_stage("C12S", 3, 10, instrument=True, shards=4, tparams={"points": 1000})],
 )
 PROPS["C13"] = dict(
     level_text="Theorems (Properties/C13.v): for every operation sequence the implementation-level Channel model (buffer + rollback counter as coded) "
@@ -713,4 +716,109 @@ PROPS["C07"] = dict(
     stages=[corr_stage("C06K2", 1000, 6000, feature=feat_pubsub, seeds=3, params={"salt": 7}),
             corr_stage("C06S", 3, 10, feature=feat_pubsub, instrument=True, shards=6, params={"salt": 7}, tparams={"hits": 6}, timeout=1200),
             corr_stage("C07SAN", 300, 20000, feature=feat_pubsub)],
+)
+
+
+def feat_c15(tok):
+    if tok[0] != "F":
+        return None
+    body = tok[3:]
+    bar = body.index("|")
+    args, res = body[:bar], body[bar + 1:]
+    if tok[1] == "notifier_publish":
+        n = int(args[1])
+        subs = [args[2 + 4 * i: 6 + 4 * i] for i in range(n)]
+        evs = args[3 + 4 * n:]
+        pending = [s for s in subs if s[3] == "1" and not (s[1] == "1" and s[2] == "1")]
+        guarded_mid = any(s[1] == "1" for s in pending[1:-1]) if len(pending) >= 3 else False
+        # non-trivial: >= 2 deliveries with >= 3 pending subscriptions and a context-guarded one strictly inside the slices,
+        # or a cancellation event for a pending guarded subscription followed by a delivery
+        if (int(res[1]) >= 2 and guarded_mid) or (int(res[1]) >= 1 and "1" in evs[0::2] and any(s[1] == "1" for s in pending)):
+            return "pub:" + " ".join(args)
+        return None
+    if tok[1] == "notifier_registry":
+        ops = [args[1 + 3 * i: 4 + 3 * i] for i in range(int(args[0]))]
+        kinds = set(o[0] for o in ops)
+        if {"0", "1", "2"} <= kinds and "0" in res:
+            return "reg:" + " ".join(args)
+    return None
+
+PROPS["C15"] = dict(
+    level_text="Theorems (Properties/C15.v): PublishContext's three parallel slices with the index re-basing loop (early break) as coded keep a "
+               "representation invariant (refs strictly increasing, in range, pointing at the guarded sends) under EVERY select outcome and equal a "
+               "set-of-pending-subscriptions specification for every event sequence and map-iteration order; hence exactly once, only eligible "
+               "(assignable, not already cancelled) subscriptions receive, Publish returns iff everyone pending was served or cancelled or the publish "
+               "context fired; registry: duplicate Subscribe / unmatched Unsubscribe panic (registry untouched), Unsubscribe barrier, other keys untouched, "
+               "empty-key cleanup invisible. Refuted on the same transition function: ref not removed, decrement-before-test; '<' for '<=' in the break "
+               "test is proved an EQUIVALENT mutant. Tie: K1 single-ready-case runs of the real PublishContext decided by the extracted run_publish and "
+               "spec_publish, registry sequences decided by subscribe/unsubscribe/lookup, SubscribeCancel leak/barrier monitors, concurrent stress monitors.",
+    level_note="Trusted: Coq kernel, extraction, OCaml adapter, Go harness (quiescence detection makes exactly one select case ready at a time; reflect.Select's "
+               "choice among SEVERAL ready cases is not modelled - the theorems hold for every choice); the compat column of each record is a hand-written "
+               "table (value kind x element type), not reflect.AssignableTo. The RWMutex (publish under RLock, registry fixed during a publish) is assumed (C11).",
+    rule="C15K1: seeded cases, 1-5 subscriptions on one key with distinct unbuffered targets over 6 element types, contexts (some pre-cancelled), optional "
+         "publish context (sometimes already cancelled), values int/string/*int/error/UNTYPED NIL; events (receive with 3 ms timeout / cancel / exit) applied "
+         "one at a time with quiescence in between; delivered list and returned flag must equal run_publish = spec_publish; monitors: no panic, delivered "
+         "value identical, other keys receive nothing, Publish returns once everyone is served. C15REG: Subscribe/Unsubscribe/Publish/Lookup sequences over "
+         "2 keys x 3 targets, panics leave the in-package registry snapshot unchanged, SubscribeCancel barrier + goroutine baseline. C15K2: concurrent "
+         "publishers x keys x SubscribeCancel receivers, exactly once per live subscriber. non-trivial = >=2 deliveries with a context-guarded "
+         "subscription strictly inside >=3 pending, or a cancellation of a pending guarded subscription followed by a delivery; registry case with "
+         "sub+unsub+publish and a panic; distinct by full record",
+    stages=[corr_stage("C15K1", 400, 6000, feature=feat_c15, seeds=3),
+            corr_stage("C15REG", 300, 5000, feature=feat_c15, seeds=2),
+            corr_stage("C15K2", 60, 800, validate=False, seeds=2)],
+)
+
+
+# ---------------------------------------------------------------------------------------------------------------
+# C09 / C10 Exclusive
+# ---------------------------------------------------------------------------------------------------------------
+def feat_c09(tok):
+    # F exclusive_case id keys calls execs phasemask | 1 ; phasemask bits: 1 idle 2 sleep-window 4 running 8 gap 16 busy
+    if tok[0] == "F" and tok[1] == "exclusive_case":
+        keys, calls, execs, mask = (int(x) for x in tok[3:7])
+        if (mask & (2 | 4 | 8 | 16)) and 0 < execs < calls:
+            return "%d %d %d %d %s" % (keys, calls, execs, mask, tok[2].split("-")[0])
+    return None
+
+_EXCL_NOTE = ("Trusted: Coq kernel, extraction (ExtrOcamlBasic), OCaml adapter (count search over the extracted step), Go harness (logical clock, "
+              "quiescence detection, gates inside the supplied functions). The counter abstraction (one key; two-key product) is hand-written from "
+              "exclusive.go: each critical section on item.mutex is one step; Exclusive.mutex sections are part of the step that takes them; lock-order "
+              "deadlock freedom (item before map) is argued, not modelled. Its tie to the code is the monitors on gated/free-running/delay-swept histories.")
+
+_EXCL_STAGES = lambda: [
+    corr_stage("C09K1", 500, 6000, feature=feat_c09, seeds=3),
+    corr_stage("C09K2", 400, 5000, feature=feat_c09, seeds=3),
+    corr_stage("C09S", 6, 20, feature=feat_c09, instrument=True, shards=6, tparams={"points": 1000}),
+]
+
+PROPS["C09"] = dict(
+    rule="C09K1: seeded gated scripts on 1-3 keys: calls of all 8 styles (Call, CallAfter, CallAsync, CallAfterAsync, Start, StartAfter, CallWithOptions "
+         "work-style with and without ExclusiveStart) whose functions are held by the harness before resolve and/or before return, or return without "
+         "resolving, issued while earlier work is idle / inside a CallAfter wait / running / resolved-not-returned, with quiescence waits between actions; "
+         "C09K2: 4-12 free-running goroutines x 2-4 mixed calls; C09S: three 1-key scenarios (resolve-to-return gap, CallAfter wait, never-resolving work) "
+         "on an INSTRUMENTED build, plain and with a 2 ms delay at every synchronisation point hit (k-th hit <= 2). Monitors on logical ticks: per-key "
+         "[start, return] intervals never overlap; a call on an idle key completes within 500 ms while another key's work is held. non-trivial = case that "
+         "issued a call while its key was sleeping/running/in the gap/busy and coalesced calls (executions < calls); distinct by (keys, calls, execs, phases)",
+    level_text="Theorems (Properties/C09.v) on the counter abstraction of exclusive.go, any number of calls of both styles, every schedule: overlap = 0 "
+               "(ExecStart only when the previous work function has returned: the step form excludes RWork, RWorkRes and RDone), the A.6 invariant, "
+               "refutation when resolve clears the successor's running flag; two-key product: each key behaves as the one-key model on its own picks and "
+               "no pick of a key is disabled or altered by whatever the other key does. Tie: monitors on implementation histories.",
+    level_note=_EXCL_NOTE,
+    stages=_EXCL_STAGES(),
+)
+PROPS["C10"] = dict(
+    rule="C09K1/C09K2/C09S (see C09). Monitors: every blocking/async call gets exactly one outcome (async channel: one value then closed; start-style: nil "
+         "channel); the outcome is the (result, error) resolved by an execution of the same key whose start tick is after the call's invocation tick; "
+         "callers answered by one execution agree; the executed function was supplied by a call of that key made before the start, executed once, and "
+         "its supplier is answered by that very execution; a function returning without resolving yields errResolveNotCalled to all its callers and "
+         "nobody hangs (2 s); every call (in particular Start/StartAfter) is followed by an execution start; executions <= calls; afterwards "
+         "len(e.work) == 0, library goroutines back to baseline, a fresh Call runs its own function. The per-key counts must be the counts of a "
+         "terminal state of the extracted model (exhaustive search for <= 4 calls, proved inequalities above). non-trivial as C09",
+    level_text="Theorems (Properties/C10.v): the tagged call is answered once, by the execution its item was bound to, whose ExecStart follows the "
+               "call's first step; answered <= issued always and = issued in terminal states, nothing in flight, key not in the map (forced resolve "
+               "included); every run terminates and a terminal state is reachable from every state; every call of either style is followed by an "
+               "ExecStart on every completed continuation; executions <= calls; refuted without the forced resolve and with an unconditional escape hatch.",
+    level_note=_EXCL_NOTE + " PARTIAL: result/function identity of coalesced callers is not expressible in the counter abstraction "
+               "(C10_coalesced_identical_partial); it is decided by the harness monitors only.",
+    stages=_EXCL_STAGES(),
 )
